@@ -54,8 +54,24 @@ impl std::fmt::Display for AssetClass {
     }
 }
 
-#[derive(Serialize, Deserialize, Debug, Clone, PartialEq, Eq)]
+#[derive(Serialize, Deserialize, Debug, Clone)]
 pub struct CanonicalAssets(HashMap<AssetClass, i128>);
+
+// Equality is semantic: an entry with amount zero means the same as no entry, however the
+// value was constructed (constructors and `neg` keep zero entries, `+` and `-` drop them).
+impl PartialEq for CanonicalAssets {
+    fn eq(&self, other: &Self) -> bool {
+        let non_zero = |x: &Self| x.0.values().filter(|v| **v != 0).count();
+
+        non_zero(self) == non_zero(other)
+            && self
+                .0
+                .iter()
+                .all(|(class, amount)| *amount == 0 || other.0.get(class) == Some(amount))
+    }
+}
+
+impl Eq for CanonicalAssets {}
 
 impl std::fmt::Display for CanonicalAssets {
     fn fmt(&self, f: &mut std::fmt::Formatter<'_>) -> std::fmt::Result {
